@@ -1,6 +1,9 @@
 (* C01 — decode a case, run the model, encode the observable.
    case: ( (appname ...) (rootlevel (appname ...)) ((name level additive (appname ...)) ...)
-           ((target level) ...) )
+           ((target level) ...) [ (failing-appender-index ...) ] )
+   The optional 5th component names appenders whose `append` returns Err after
+   recording the call.  The model ignores it: an appender's failure has no
+   influence on routing (`ConfiguredLogger::log` collects the error and goes on).
    result: ( (idx ...) ... )  per probe the appender indices whose append is called, in order;
            ("err" 1) when SharedLogger::new would panic (unresolved appender reference) *)
 From L4 Require Import Common.Val Model.Routing.
@@ -29,9 +32,7 @@ Definition dec_config (apps root loggers : vl) : option config :=
 Definition dec_probe (v : vl) : option (str * N) :=
   match v with VL [VS t; VN l] => Some (t, l) | _ => None end.
 
-Definition c01_run (v : vl) : vl :=
-  match v with
-  | VL [apps; root; loggers; probes] =>
+Definition c01_route (apps root loggers probes : vl) : vl :=
     match dec_config apps root loggers, val_list dec_probe probes with
     | Some cfg, Some prs =>
       match build cfg with
@@ -39,6 +40,11 @@ Definition c01_run (v : vl) : vl :=
       | None => VErr 1
       end
     | _, _ => VBad
-    end
+    end.
+
+Definition c01_run (v : vl) : vl :=
+  match v with
+  | VL [apps; root; loggers; probes] => c01_route apps root loggers probes
+  | VL [apps; root; loggers; probes; VL _] => c01_route apps root loggers probes
   | _ => VBad
   end.
